@@ -5,6 +5,7 @@ import N0Verif.Proofs.XPathPureDiverge
 import N0Verif.Proofs.XPathTok
 import N0Verif.Proofs.XPathTermApi
 import N0Verif.Proofs.XPathFirst
+import N0Verif.Proofs.XPathUpRoot
 /-!
 # C04 — lookups are total and pure: a miss yields the default, never a change
 
@@ -575,5 +576,56 @@ example : first 20 (.dict .n0 [(['a'], dOne)]) ['a'] dOne = (.dict .n0 [(['a'], 
   C04_first_hit 20 _ ['a'] dOne dOne (by decide) (by decide) (by decide)
 example : first 40 exTree2 ['r', '[', '*', ']', '/', 'w'] dOne
     = (exTree2, .ok (.list .n0 [.str ['x'], .str ['y']])) := by decide +kernel
+
+/-! ## fix C04-g: a `'..'` step that surfaces to the root as the LAST step of the path finds the root
+
+Before the fix the FOUND branch of `'..'` built the found text from the name of the node reached — the root has
+none (`str + None`): `TypeError`, so `d.get('a/..', 'D')` returned the default and `d['a/..']` raised although the
+path resolves (`d['x/../s']`, where the walk continues, always worked). -/
+
+/-- **`k/..` resolves to the root** (dict root, `k` a plain-name key that is present; every fuel ≥ 3, every default):
+item access, `get` and `first` return the root itself, the tree is unchanged. -/
+theorem C04_up_to_root (fuel : Nat) (cls : Cls) (kvs : List (Str × Val)) (k : Str) (c d : Val)
+    (hk : PlainKey k) (hl : lookup k kvs = some c) :
+    let t := Val.dict cls kvs
+    let xp := k ++ slash ++ ['.', '.']
+    getItem (fuel + 3) t xp = (t, .ok t) ∧ XPath.get (fuel + 3) t xp d = (t, .ok t) ∧ first (fuel + 3) t xp d = (t, .ok t) := by
+  refine ⟨upRoot_getCore fuel cls kvs k c _ true true hk hl, upRoot_getCore fuel cls kvs k c d false true hk hl, ?_⟩
+  exact first_of_found (fun d' => upRoot_getCore fuel cls kvs k c d' false false hk hl) d
+
+/-- the token-level fact behind it: `_find` reports the root the way an empty xpath does (parent = the root, no name,
+found text `/`) -/
+theorem C04_up_to_root_find (fuel : Nat) (cls : Cls) (kvs : List (Str × Val)) (k : Str) (c : Val) (rl : Bool)
+    (hk : PlainKey k) (hl : lookup k kvs = some c) :
+    findD (fuel + 3) (.dict cls kvs) [] false true [k, ['.', '.']] (.at []) rl slash
+      = .ok (.dict cls kvs, { parent := .at [], nameIdx := Option.none, value := .dict cls kvs, found := slash, notFound := Option.none }) :=
+  upRoot_find fuel cls kvs k c true rl hk hl
+
+-- non-vacuity: the theorem on `exTree` / `exTree2`, and the neighbouring shapes through the model
+example : XPath.get 20 exTree ['a', '/', '.', '.'] (.str ['D']) = (exTree, .ok exTree) :=
+  (C04_up_to_root 17 .n0 _ ['a'] _ (.str ['D']) ⟨by decide, by decide, by decide⟩ rfl).2.1
+example : getItem 40 exTree2 ['r', '[', '0', ']', '/', '.', '.'] = (exTree2, .ok exTree2) := by decide +kernel
+example : getItem 40 exTree2 ['r', '[', '0', ']', '/', 'w', '/', '.', '.', '/', '.', '.'] = (exTree2, .ok exTree2) := by decide +kernel
+-- below a selecting step the parent of every selected record is collected: the list holding the root
+example : getItem 40 exTree2 ['r', '[', 'i', 'd', '=', '2', ']', '/', '.', '.'] = (exTree2, .ok (.list .n0 [exTree2])) := by
+  decide +kernel
+example : getItem 40 exTree2 ['n', 'e', 'w', '/', '.', '.', '/', '.', '.'] = (exTree2, .ok exTree2) := by decide +kernel
+example : getItem 40 (.list .n0 [.dict .n0 [(['a'], .int 1)]]) ['[', '0', ']', '/', '.', '.']
+    = (.list .n0 [.dict .n0 [(['a'], .int 1)]], .ok (.list .n0 [.dict .n0 [(['a'], .int 1)]])) := by decide +kernel
+-- a `'..'` that does not reach the root is what it was: the parent node
+example : (getItem 40 exTree2 ['r', '[', '0', ']', '/', 'w', '/', '.', '.']).2
+    = .ok (.dict .n0 [(['i', 'd'], .str ['1']), (['w'], .str ['x'])]) := by decide +kernel
+-- assignment to the root through such a path is refused as `d['/'] = v` is (no name to store under)
+example : (setItem 20 exTree ['a', '/', '.', '.'] (.int 5)).2 = .error .TypeError := by decide
+
+/-- **finding C04-h (open)**: `'..'` directly below a scalar element reached by the list-side search (`n0list._find`:
+index steps only, from a list root) raises `TypeError` although the path resolves — here to the inner list `[5, 6]`;
+below a dict the same step works. -/
+theorem C04_up_below_list_scalar_cex :
+    getItem 40 (.list .n0 [.list .n0 [.int 5, .int 6]]) ['[', '0', ']', '[', '1', ']', '/', '.', '.']
+      = (.list .n0 [.list .n0 [.int 5, .int 6]], .error .TypeError) ∧
+    getItem 40 (.dict .n0 [(['b'], .list .n0 [.list .n0 [.int 5, .int 6]])]) ['b', '[', '0', ']', '[', '1', ']', '/', '.', '.']
+      = (.dict .n0 [(['b'], .list .n0 [.list .n0 [.int 5, .int 6]])], .ok (.list .n0 [.int 5, .int 6])) := by
+  constructor <;> decide +kernel
 
 end N0.C04
